@@ -109,8 +109,11 @@ func shortFunc(fn string) string {
 	return strings.TrimPrefix(fn, "github.com/youzan/ZanRedisDB/")
 }
 
-func absorbRace(c *vc.Ctx, cp *childProc) {
-	reps := parseRaceLogs(cp.raceDir)
+func absorbRace(c *vc.Ctx, dirs []string) {
+	var reps []raceReport
+	for _, d := range dirs {
+		reps = append(reps, parseRaceLogs(d)...)
+	}
 	c.Ev.Count("race_report_blocks", int64(len(reps)))
 	seen := map[string]bool{}
 	var outside []string
